@@ -260,7 +260,10 @@ class SC:
             if x.imag == 0:
                 return a
             b = lift_float(x.imag)
-            return SC(a.re, b.re)
+            lin = None
+            if ENV is not None:
+                lin = (ENV._const_lin(x.real), ENV._const_lin(x.imag))    # so that exp / cos of the constant stay exact
+            return SC(a.re, b.re, lin)
         if isinstance(x, numpy.ndarray) and x.shape == ():
             return SC.lift(x[()] if x.dtype == object else x.item())
         raise TypeError("cannot lift %r to SC" % type(x))
